@@ -12,6 +12,7 @@ type Column struct {
 	Type    string // as written (lower-cased by the lexer unless quoted)
 	NotNull bool
 	Default Expr
+	DefPath []string // search_path when the default was defined (functions are bound then)
 	MaxLen  int // varchar(n), 0 = unlimited
 }
 
@@ -65,6 +66,14 @@ func (t *Table) colIndex(name string) int {
 		}
 	}
 	return -1
+}
+
+// qname is the schema-qualified name, used as the row type of the table.
+func (t *Table) qname() string {
+	if t.Schema == "" {
+		return t.Name
+	}
+	return t.Schema + "." + t.Name
 }
 
 func (t *Table) colNames() []string {
